@@ -137,6 +137,38 @@ def o173(ctx):
         ctx.count(1)
         if sort and not (srt and is_pyconst(srt[0].kwargs.get("by", srt[0].arg(1))) and pyval(srt[0].kwargs.get("by", srt[0].arg(1))) == "TiltAngle"):
             ctx.finding("mdoc.Mdoc.sort_by_tilt", srt[0].node if srt else fn, "sort_by_tilt must sort by TiltAngle", srt[0].node if srt else fn, m)
+    # the other branch: no PriorRecordDose in the file.  The accumulated dose of an image is its ExposureDose times its rank in order of
+    # acquisition (DateTime), handed back in the order of the table's rows (file order, or tilt order with sort_mdoc)
+    for sort in (True, False):
+        am_ = assume_map({"sort_mdoc": sort, "'PriorRecordDose' in mdoc_file.imgs": False})
+        it = Interp(ctx.prog, summaries={"cryocat.mdoc.Mdoc": mdoc_summary}, assume=am_)
+        r = it.run(q, [K("series.mdoc")], {"sort_mdoc": K(sort)})
+        if "'PriorRecordDose' in mdoc_file.imgs" not in am_.used:
+            # the code decides in another way whether the file has prior doses (a lookup that may fail, a default): this branch is not reached
+            # by setting the test, so the rule about it decides nothing
+            raise Unsupported("total_dose_load: the test for a PriorRecordDose column is not the one the rule configures", fn)
+        ev = [e for e in it.events if e.fn == q]
+        srt = [e for e in ev if e.kind == "call" and e.name == "DataFrame.sort_values"]
+        rst = [e for e in ev if e.kind == "call" and e.name == "DataFrame.reset_index"]
+        by = [pyval(e.kwargs.get("by", e.arg(1))) if e.kwargs.get("by", e.arg(1)) is not None and is_pyconst(e.kwargs.get("by", e.arg(1))) else None for e in srt]
+        sp = getattr(r.ret, "space", None)
+        ctx.count(1, {"branch": "no PriorRecordDose", "sort_mdoc": sort, "dose": tm.show(to_term(r.ret))[:80], "sorts": by, "rows": sp.chain() if sp else None})
+        if sp is None or len(srt) != 2 or by[0] != "DateTime" or by[1] is None or len(rst) != 1 or srt[0].kwargs.get("ignore_index") is not None:
+            raise Unsupported("total_dose_load (no PriorRecordDose): sort by acquisition time / rank / sort back structure not recognised", fn)
+        # the helper column that restores the order holds 0..n-1 and is written before the table is sorted by time
+        helper = [e for e in ev if e.kind == "store" and e.name == "columns" and tm.show(to_term(e.args[1])) == f"vec('{by[1]}')"]
+        ctx.count(1)
+        if len(helper) != 1 or not (to_term(helper[0].args[2]).op == "call" and to_term(helper[0].args[2]).args[0] == "range") \
+                or ev.index(helper[0]) > ev.index(srt[0]):
+            ctx.finding(q, srt[1].node, f"the doses are put back into the order of the table's rows by sorting on `{by[1]}`: that column must hold the row "
+                        "positions 0..n-1 as they were before the table was sorted by acquisition time", srt[1].node, m)
+        want = mk("mul", sym("img:ExposureDose"), mk("add", call("index", const(0)), const(1)))
+        got = to_term(r.ret)
+        got_n = tm.subst(got, {n: call("index", const(0)) for n in tm.walk(got) if n.op == "call" and n.args[0] == "index"})
+        ctx.count(1)
+        if not tm.equivalent(got_n, want, seed_tag=q + "rank" + str(sort)) or ev.index(rst[0]) < ev.index(srt[0]) or ev.index(rst[0]) > ev.index(srt[1]):
+            ctx.finding(q, "mdoc dose without PriorRecordDose", "the accumulated dose must be ExposureDose * (rank in order of acquisition), the rank "
+                        "being the row position after sorting by DateTime (index + 1 after reset_index)", fn, m, extracted=tm.show(got)[:120])
     # tlt_load: arrays/lists returned as given; file input sorted ascending iff sort_angles
     q = IO + "tlt_load"
     m, fn = ctx.prog.func(q)
@@ -151,6 +183,22 @@ def o173(ctx):
         if t != want:
             ctx.finding(q, "file input", f"with sort_angles={sa} a .tlt file must be returned {'in ascending order (np.sort)' if sa else 'in file order'}",
                         fn, m, extracted=tm.show(t)[:100])
+    # .mdoc input: the tilt angles are the TiltAngle field of the images as the mdoc reader parses them (one reader for every consumer of the
+    # file: exponent notation, signs and spacing are its business -- see O17.12)
+    for sa in (True, False):
+        it = Interp(ctx.prog, summaries={"cryocat.mdoc.Mdoc": mdoc_summary}, assume=assume_map({"sort_angles": sa}))
+        r = it.run(q, [K("series.mdoc")], {"sort_angles": K(sa)})
+        t = to_term(r.ret)
+        ctx.count(1, {"mdoc input, sort_angles": sa, "returned": tm.show(t)[:80]})
+        want = call("numpy.sort", sym("img:TiltAngle")) if sa else sym("img:TiltAngle")
+        if t != want and not tm.equivalent(t, want, seed_tag=q + "mdoc" + str(sa)):
+            if not tm.has_sym(t, "img:TiltAngle"):
+                ctx.finding(q, "mdoc input", "the tilt angles of an .mdoc file must be the TiltAngle values of the images as parsed by the mdoc reader "
+                            f"(Mdoc(...).get_image_feature('TiltAngle')); the code returns {tm.show(t)[:100]}: a second, private reading of the file "
+                            "need not agree with the reader on exponent notation, signs or spacing", fn, m)
+            else:
+                ctx.finding(q, "mdoc input", f"with sort_angles={sa} the TiltAngle values must be returned {'in ascending order' if sa else 'in file order'}; "
+                            f"got {tm.show(t)[:100]}", fn, m)
     it = Interp(ctx.prog, assume=assume_map({"isinstance(input_tlt, np.ndarray)": True, "input_tlt.size == 0": False}))
     r = it.run(q, [typed(Unk(sym("angles")), "ndarray")], {})
     ctx.count(1)
@@ -392,6 +440,24 @@ def o175(ctx):
                                                                                       if isinstance(c, ast.Compare) for o in c.ops):
         ctx.finding(q, cols_if[0].test if cols_if else fn, "every image field except the section id and the Removed flag must be written",
                     cols_if[0].test if cols_if else fn, m)
+    # reader and writer agree on the bookkeeping columns: every column the reader adds under a name of its own (not a key of the file) is left
+    # out by the writer -- otherwise every written file gains a field no source image had, and reading it back gives another table
+    added = {}
+    for n_ in ast.walk(fr_):
+        if isinstance(n_, ast.Assign):
+            for t_ in n_.targets:
+                if isinstance(t_, ast.Subscript) and isinstance(t_.slice, ast.Constant) and isinstance(t_.slice.value, str) and isinstance(t_.value, ast.Name):
+                    reads_itself = any(isinstance(x_, ast.Subscript) and isinstance(x_.slice, ast.Constant) and x_.slice.value == t_.slice.value
+                                       for x_ in ast.walk(n_.value))
+                    if not reads_itself:  # a conversion of a column of the file (`imgs['TiltAngle'] = imgs['TiltAngle'].astype(float)`) adds nothing
+                        added.setdefault(t_.slice.value, n_)
+    excluded = {c_.value for c_ in ast.walk(cols_if[0].test) if isinstance(c_, ast.Constant) and isinstance(c_.value, str)} if cols_if else set()
+    ctx.count(1, {"columns the reader adds under a name of its own": sorted(added), "literal names the writer leaves out": sorted(excluded)})
+    for name_, node_ in sorted(added.items()):
+        if name_ not in excluded:
+            ctx.finding("mdoc.Mdoc._parse_images", node_, f"the reader adds a column `{name_}` of its own to the image table, and Mdoc.write does not leave it out: "
+                        f"every file written gains a `{name_} = ...` field per image that the source did not have (reader and writer must agree on the "
+                        "bookkeeping columns, as they do for `Removed`)", node_, mr)
     # (c) sort_by_tilt only sorts; remove_image(s) only set the flag, positions -> labels exactly once
     qs = "mdoc.Mdoc.sort_by_tilt"
     ms, fs = ctx.prog.func(qs)
